@@ -5,7 +5,8 @@ __make_dot_bracket, fcfs, the decoder) and adds the model of the third-party lib
 MODEL OF pulp (every entry of EXTERNALS below is an ASSUMED contract = trusted base, listed in props/C13.py / C02.py)
   * LpSolver objects (HiGHS_CMD(), LpSolverDefault): opaque objects with a writable flag `msg`; `available()` is any truth
     value; `pulp.LpSolverDefault` is any solver object or None (MODULE_ATTRS: symbolic module attribute).
-  * LpVariable(name, lo, hi, cat): a new object (identity!) with these four attributes; `varValue` is only read after solve.
+  * LpVariable(name, lo, hi, cat): a new object (identity!) with name, bounds and the flag `integer` (cat == LpInteger);
+    `varValue` (an int in this model) is only read after solve.
   * affine expressions and constraints: a FREE TERM ALGEBRA of immutable records - nothing is simplified or evaluated:
         LpMono(var, coef)                      var * int, int * var, mono * int   (coefficient products are integers)
         LpExpr kind 2 (var, var2)              var + var
@@ -20,9 +21,9 @@ MODEL OF pulp (every entry of EXTERNALS below is an ASSUMED contract = trusted b
     (ghost: position of every occurring variable, and for every listed variable one place where it occurs).
   * problem.solve(solver): raises PulpSolverError or returns having set `status` to ANY integer and the variables' values to
     anything, except for T-solver (the single trusted fact about the solver, spec function t_solver): when status ==
-    LpStatusOptimal every variable of the problem has an integer value within its bounds and the values satisfy every
-    constraint in `cons` (sums over lists through the running sum `esum`, lemma esum_definition).  [C02 adds: ... and no
-    other such valuation has a larger objective value.]
+    LpStatusOptimal and every variable of the problem is Integer (all_integer: an obligation at the call), every variable has
+    an integer value within its bounds and the values satisfy every constraint in `cons` (sums over lists through the running
+    sum `esum`, lemma esum_definition).  [The solver's optimality is NOT part of the model: no proof here uses it.]
   * itertools.combinations(range(n), 2), collections.defaultdict(set|list), str.split (lemma split3), int()/str() round trip
     (lemma int_str_roundtrip).
 """
@@ -429,11 +430,6 @@ def graph_exact(G, R):
             and forall(lambda a, b: implies(0 <= a and a < len(R) and 0 <= b and b < len(R) and cross(R, a, b), a in G and b in G[a])))
 
 
-@spec
-def nbrs(R, a):
-    return setof(lambda b: 0 <= b and b < len(R) and cross(R, a, b))
-
-
 DIGITS = "[0-9]+"
 
 
@@ -542,6 +538,74 @@ def objective_ok(P, A1, A2):
 
 
 @spec
+def cols_full(VBO, VRO, i, j, M):
+    """vars_by_order: key o (inserted in increasing order) holds the variables of column o in row order"""
+    return (len(list(VBO.keys())) == ite(i > 0, M, j)
+            and forall(lambda o: implies(0 <= o and o < ite(i > 0, M, j), list(VBO.keys())[o] == o and o in VBO))
+            and forall(lambda o: implies(o in VBO, 0 <= o and o < ite(i > 0, M, j)))
+            and forall(lambda o: implies(o in VBO, len(VBO[o]) == ite(o < j, i + 1, i)))
+            and forall(lambda o, a: implies(o in VBO and 0 <= a and a < len(VBO[o]), VBO[o][a] is VRO[(a, o)])))
+
+
+@spec
+def coef(R, a, o):
+    """C02 (4): objective coefficient of x_a_o: +length on level 0, -level * length above"""
+    return ite(o == 0, R[a][2], -1 * R[a][2] * o)
+
+
+@spec
+def terms_fwd(T, TPOS, R, GI, GJ, A1, A2, c, d):
+    """C02 (4): every monomial of T is coef(a, o) * x_a_o for a cell (o, a) before the cursor (c, d) of the column-wise
+    double loop, and sits at the ghost position TPOS[(a, o)] (so: at most one monomial per cell)"""
+    return forall(lambda q: implies(0 <= q and q < len(T),
+                                    ours(T[q].var, A1, A2) and before(GJ[ident(T[q].var)], GI[ident(T[q].var)], c, d)
+                                    and T[q].coef == coef(R, GI[ident(T[q].var)], GJ[ident(T[q].var)])
+                                    and TPOS[(GI[ident(T[q].var)], GJ[ident(T[q].var)])] == q))
+
+
+@spec
+def terms_bwd(T, TPOS, R, VRO, c, d):
+    """... and every such cell has its monomial"""
+    return forall(lambda a, o: implies(before(o, a, c, d) and a < len(R),
+                                       0 <= TPOS[(a, o)] and TPOS[(a, o)] < len(T) and T[TPOS[(a, o)]].var is VRO[(a, o)]))
+
+
+@spec
+def terms_model(T, TPOS, R, GI, GJ, VRO, A1, A2, c, d):
+    return terms_fwd(T, TPOS, R, GI, GJ, A1, A2, c, d) and terms_bwd(T, TPOS, R, VRO, c, d)
+
+
+@spec
+def objective_model(P, TPOS, R, GI, GJ, VRO, A1, A2, M):
+    return P.has_objective and P.objective.kind == 4 and terms_model(P.objective.terms, TPOS, R, GI, GJ, VRO, A1, A2, M, 0)
+
+
+@spec
+def adj_model(P, G, VRO, EA, EB, EO, n, M):
+    """C02 (5b, 'and nothing else'): every constraint behind the first n is  x_a_o + x_b_o <= 1  for an edge (a, b) = (EA[k],
+    EB[k]) of the conflict graph and a level o = EO[k] < M"""
+    return forall(lambda k: implies(n <= k and k < len(P.cons),
+                                    P.cons[k].expr.kind == 2 and P.cons[k].sense == -1 and P.cons[k].rhs == 1
+                                    and EA[k] in G and EB[k] in G[EA[k]] and 0 <= EO[k] and EO[k] < M
+                                    and P.cons[k].expr.var is VRO[(EA[k], EO[k])] and P.cons[k].expr.var2 is VRO[(EB[k], EO[k])]))
+
+
+@spec
+def adj_complete(G, ADJ, M):
+    """C02 (5b): every edge has its constraint on every level"""
+    return forall(lambda a, b, o: implies(a in G and b in G[a] and 0 <= o and o < M, (a, b, o) in ADJ))
+
+
+@spec
+def degree_bound(G, R, M):
+    """C02 (2): max_order == maximum vertex degree + 1; the degree of vertex a is len(graph[a]) (len.set), graph[a] being
+    exactly the set of stems that cross stem a (graph_exact, C02 (1))"""
+    return (graph_exact(G, R)
+            and forall(lambda a: implies(a in G, card(G[a]) + 1 <= M))
+            and exists(lambda a: a in G and card(G[a]) + 1 == M))
+
+
+@spec
 def same_graph(G, G0):
     return (forall(lambda a: (a in G) == (a in G0)) and forall(lambda a: implies(a in G0, G[a] == G0[a])))
 
@@ -549,8 +613,9 @@ def same_graph(G, G0):
 LEMMAS = dict(common_c.LEMMAS)
 LEMMAS.update({
     # property quantifier: "structures needing at most 30 bracket levels" - the MILP encoder needs the stronger degree bound
-    "degree30_definition": {"kind": "definition", "params": ["s", "R"],
-                            "ensures": ["implies(degree30(s), forall(lambda a: implies(0 <= a and a < len(R), card(nbrs(R, a)) <= 29)))"]},
+    "degree30_definition": {"kind": "definition", "params": ["s", "R", "a", "S"], "shapes": ["BpSeq", "list[tuple[int,int,int]]", "int", "set[int]"],
+                            "ensures": ["implies(degree30(s) and 0 <= a and a < len(R) "
+                                        "and forall(lambda b: (b in S) == (0 <= b and b < len(R) and cross(R, a, b))), card(S) <= 29)"]},
     "numeral_definition": {"kind": "definition", "params": ["t"], "shapes": ["str"], "ensures": ["numeral(t) == matches(t, DIGITS)"]},
     "numeral_definition_all": {"kind": "definition", "params": ["L"], "shapes": ["list[str]"],
                                "ensures": ["forall(lambda q: numeral(L[q]) == matches(L[q], DIGITS), pats=['L[q]'])"]},
@@ -562,6 +627,27 @@ LEMMAS.update({
                            "and (a + '_' + b + '_' + c).split('_')[1] == b and (a + '_' + b + '_' + c).split('_')[2] == c)"]},
     "int_str_roundtrip": {"kind": "assumed-external", "params": ["n"],
                           "ensures": ["implies(n >= 0, matches(str(n), '[0-9]+') and not ('_' in str(n)) and int(str(n)) == n)"]},
+    # sums of 0/1 values (induction on the length of the prefix): non-negative; zero only if all summands are; at most one
+    # summand is 1 if the sum is <= 1
+    "esum_nonneg": {"kind": "smt", "params": ["P", "k", "n"], "shapes": ["LpProblem", "int", "int"], "requires": ["esum_def(P)"],
+                    "decreases": "ite(n > 0, n, 0)",
+                    "steps": ["assert implies(esum_witness_pre(P, k, n), esum(k, n) == ite(n == 0, 0, esum(k, n - 1) + P.cons[k].expr.items[n - 1].varValue))",
+                              "use esum_nonneg(P, k, n - 1) when n > 0"],
+                    "ensures": ["implies(esum_witness_pre(P, k, n), esum(k, n) >= 0)"]},
+    "esum_zero": {"kind": "smt", "params": ["P", "k", "n"], "shapes": ["LpProblem", "int", "int"], "requires": ["esum_def(P)"],
+                  "decreases": "ite(n > 0, n, 0)",
+                  "steps": ["assert implies(esum_witness_pre(P, k, n), esum(k, n) == ite(n == 0, 0, esum(k, n - 1) + P.cons[k].expr.items[n - 1].varValue))",
+                            "use esum_nonneg(P, k, n - 1) when n > 0", "use esum_zero(P, k, n - 1) when n > 0"],
+                  "ensures": ["implies(esum_witness_pre(P, k, n) and esum(k, n) <= 0, "
+                              "forall(lambda q: implies(0 <= q and q < n, P.cons[k].expr.items[q].varValue == 0)))"]},
+    "esum_atmost": {"kind": "smt", "params": ["P", "k", "n"], "shapes": ["LpProblem", "int", "int"], "requires": ["esum_def(P)"],
+                    "decreases": "ite(n > 0, n, 0)",
+                    "steps": ["assert implies(esum_witness_pre(P, k, n), esum(k, n) == ite(n == 0, 0, esum(k, n - 1) + P.cons[k].expr.items[n - 1].varValue))",
+                              "use esum_nonneg(P, k, n - 1) when n > 0", "use esum_zero(P, k, n - 1) when n > 0",
+                              "use esum_atmost(P, k, n - 1) when n > 0"],
+                    "ensures": ["implies(esum_witness_pre(P, k, n) and esum(k, n) <= 1, "
+                                "forall(lambda q, w: implies(0 <= q and q < w and w < n, "
+                                "not (P.cons[k].expr.items[q].varValue == 1 and P.cons[k].expr.items[w].varValue == 1))))"]},
     # sum of 0/1 values that is >= 1 has a summand equal to 1 (induction on the length of the prefix)
     "esum_witness": {"kind": "smt", "params": ["P", "k", "n"], "shapes": ["LpProblem", "int", "int"],
                      "requires": ["esum_def(P)"],
@@ -593,6 +679,26 @@ _ADJ_INV = _PROB_INV + ["same_graph(graph, G0)", "len(P0.cons) >= len(regions)",
                         "(list(G0.keys())[p], b, o) in ADJ))"]
 
 
+# readable tags of the loop invariants (obligation names: loop<k>.inv<j>[tag].init / .preserve), by the clause's first words
+_INV_TAGS = [("graph_ok(", "edges-cross-and-are-symmetric"), ("graph_upto(", "every-crossing-pair-seen-is-an-edge"), ("keys_ok(", "key-list"),
+             ("graph_pos(", "key-positions"), ("forall(lambda a: implies(a in graph, GW[a]", "every-key-has-a-neighbour"),
+             ("vars_fwd(", "variables-are-cells-bounds-0-1-integer"), ("vars_bwd(", "one-variable-per-cell"), ("vars_named(", "names-parse-back"),
+             ("rows_ok(", "vars_by_region"), ("cols_ok(", "vars_by_order"), ("cols_full(", "vars_by_order-columns"),
+             ("terms_fwd(", "objective-terms-coefficients"), ("terms_bwd(", "objective-one-term-per-cell"), ("objective_ok(", "objective-set"),
+             ("objective_model(", "objective-is-the-model"), ("region_cons(", "one-level-per-region-equals-1"),
+             ("adj_cons(", "later-constraints-two-variable"), ("adj_recorded(", "adjacency-constraint-le-1"), ("adj_model(", "nothing-but-adjacency-constraints"),
+             ("same_graph(", "graph-unchanged"), ("problem is P0", "same-problem"),
+             ("forall(lambda p: implies(0 <= p and p < c9 and VL[p].varValue == 1", "orders-point-at-value-1"),
+             ("forall(lambda a: implies(0 <= a and a < len(regions), 0 <= orders[a]", "orders-in-range"),
+             ("forall(lambda p: implies(0 <= p and p < len(VL), ours(", "listed-variables-are-ours")]
+
+
+def _labelled(loops):
+    for lc in loops.values():
+        lc["labels"] = {j: tag for j, text in enumerate(lc["inv"]) for pre, tag in _INV_TAGS if text.startswith(pre)}
+    return loops
+
+
 class convert_to_dot_bracket:
     """C13: whatever the solver does, the result is a lossless encoding; it is the value of self.fcfs whenever no optimal
     solution was delivered; nothing is raised"""
@@ -615,10 +721,12 @@ class convert_to_dot_bracket:
     #   taken is a `return self.fcfs`
     ghost_returns = {"ATTEMPTED": "bool", "SOLVED": "bool", "STATUS": "int", "VIA_FCFS": "bool"}
     ghost_entry = ["let ATTEMPTED = False", "let SOLVED = False", "let STATUS = 0", "let VIA_FCFS = False", "mark ENTRY"]
-    loops = {
+    loops = _labelled({
         # for i, j in itertools.combinations(range(len(regions)), 2)
         0: {"index": "c0", "inv": ["graph_ok(graph, regions)", "graph_upto(graph, regions, combinations_pos, c0)",
-                                   "keys_ok(graph)", "graph_pos(graph, GPOS)"]},
+                                   "keys_ok(graph)", "graph_pos(graph, GPOS)",
+                                   # every key has a neighbour (ghost witness GW)
+                                   "forall(lambda a: implies(a in graph, GW[a] in graph[a]))"]},
         # for i in range(len(regions)) / for j in range(max_order): the decision variables
         1: {"allocates": _VAR_FIELDS, "inv": ["frontier() >= A1", _VF.format(i="i", j="0"), _VB.format(i="i", j="0"), _VN,
                                               "rows_ok(vars_by_region, var_by_region_order, i, 0, max_order)",
@@ -651,29 +759,39 @@ class convert_to_dot_bracket:
             # a region one of whose variables with value 1 was seen points at a variable with value 1
             "forall(lambda p: implies(0 <= p and p < c9 and VL[p].varValue == 1, "
             "var_by_region_order[(GI[ident(VL[p])], orders[GI[ident(VL[p])]])].varValue == 1))"]},
-    }
+    })
     ghost = [
-        {"when": "before", "at": "return self.fcfs", "label": "fcfs-exit", "do": ["let VIA_FCFS = True"]},
+        {"when": "before", "at": "return self.fcfs", "label": "fcfs-exit", "do": ["let VIA_FCFS = True", "unstash START"]},
         # the postcondition of __regions (regions are the stems, every pair in a region) is needed only as precondition of
         # __make_dot_bracket: set aside until then
         {"when": "before", "at": "regions = self.__regions", "label": "regions-mark", "do": ["mark RM"]},
-        {"when": "after", "at": "regions = self.__regions", "label": "regions", "do": ["let GS = __regions_GS", "stash RM"]},
-        {"when": "before", "at": "for i, j in itertools.combinations", "label": "graph-positions", "do": ["let GPOS = fill(0, 0)"]},
-        {"when": "before", "at": "graph[i].add(j)", "label": "position-i",
-         "do": ["let GPOS = ite(i in graph, GPOS, upd(GPOS, i, len(list(graph.keys()))))"]},
-        {"when": "before", "at": "graph[j].add(i)", "label": "position-j",
-         "do": ["let GPOS = ite(j in graph, GPOS, upd(GPOS, j, len(list(graph.keys()))))"]},
+        {"when": "after", "at": "regions = self.__regions", "label": "regions", "do": ["let GS = __regions_GS", "stash RM",
+                                                                                       # likewise the quantified entry facts (valid(self.entries), heap well-formedness)
+                                                                                       "mark START 0", "stash START"]},
+        {"when": "before", "at": "for i, j in itertools.combinations", "label": "graph-positions", "do": ["let GPOS = fill(0, 0)", "let GW = fill(0, 0)"]},
+        # ghost positions of the keys that the two statements `graph[i].add(j)`, `graph[j].add(i)` are about to insert
+        {"when": "before", "at": "graph[i].add(j)", "label": "key-positions",
+         "do": ["let GPOS = ite(j in graph, GPOS, upd(GPOS, j, len(list(graph.keys())) + ite(i in graph, 0, 1)))",
+                "let GPOS = ite(i in graph, GPOS, upd(GPOS, i, len(list(graph.keys()))))",
+                "let GW = upd(upd(GW, i, j), j, i)"]},
         {"when": "before", "at": "return self.__make_dot_bracket(regions, [0 for", "label": "no-crossing",
          "do": ["forall a | assert implies(a in graph, 0 <= GPOS[a] and GPOS[a] < len(list(graph.keys()))) | assert not (a in graph)",
                 "forall a, b | assert implies(0 <= a and a < b and b < len(regions), not cross(regions, a, b))",
                 "forall a, b | assert implies(0 <= a and a < len(regions) and 0 <= b and b < len(regions), not cross(regions, a, b))",
-                "unstash RM"]},
+                "unstash RM", "unstash START"]},
         {"when": "before", "at": "max_order = max(", "label": "level-bound-mark", "do": ["mark LB"]},
         {"when": "after", "at": "max_order = max(", "label": "level-bound",
-         "do": ["use degree30_definition(self, regions)",
+         "do": [
+                "forall a, b | let CAB = 0 <= a and a < b and b < len(regions) and cross(regions, a, b) "
+                "| assert implies(CAB, 0 <= combinations_pos[(a, b)] and combinations_pos[(a, b)] < c0) "
+                "| assert implies(CAB, a in graph and b in graph[a]) | assert implies(CAB, b in graph and a in graph[b]) "
+                "| assert implies(CAB, a in graph and b in graph[a] and b in graph and a in graph[b])",
+                "forall a, b | assert implies(0 <= a and a < len(regions) and 0 <= b and b < len(regions) and cross(regions, a, b), a in graph and b in graph[a])",
                 "assert graph_exact(graph, regions)",
-                "forall a | assert implies(a in graph, graph[a] == nbrs(regions, a))",
-                # only the bound is needed below: the defining facts of max / map / len (lambda terms) are dropped
+                "forall a | use degree30_definition(self, regions, a, graph[a]) | assert implies(a in graph, card(graph[a]) <= 29)",
+                "forall a | assert implies(a in graph, GW[a] in graph[a] and card(graph[a]) >= 1)",
+                "assert 1 <= max_order and max_order <= 30",
+                # only the bound is needed below: the defining facts of max / map / len are dropped
                 "assert len(regions) >= 1",
                 "summarize LB as 1 <= max_order and max_order <= 30 and len(regions) >= 1 and graph_exact(graph, regions)"]},
         {"when": "after", "at": "problem = pulp.LpProblem(", "label": "problem", "do": ["let P0 = problem"]},
@@ -730,7 +848,102 @@ class convert_to_dot_bracket:
              "| assert implies(CR, adj_at(P0, var_by_region_order, ADJ, a, b, orders[a])) "
              "| assert implies(CR, var_by_region_order[(a, orders[a])].varValue + var_by_region_order[(b, orders[a])].varValue <= 1) "
              "| assert implies(CR, orders[a] != orders[b])",
-             "assert proper(regions, orders)", "unstash RM"]},
+             "assert proper(regions, orders)", "unstash RM", "unstash START"]},
+    ]
+
+
+def _with(loops, extra):
+    out = {k: dict(v, inv=list(v["inv"]) + extra.get(k, [])) for k, v in loops.items()}
+    return _labelled(out)
+
+
+_VRO = "var_by_region_order"
+_TF = "terms_fwd(terms, TPOS, regions, GI, GJ, A1, A2, {c}, {d})"
+_TB = "terms_bwd(terms, TPOS, regions, var_by_region_order, {c}, {d})"
+_OM = "objective_model(P0, TPOS, regions, GI, GJ, var_by_region_order, A1, A2, max_order)"
+_AM = "adj_model(P0, G0, var_by_region_order, EA, EB, EO, len(regions), max_order)"
+_IN = "0 <= a and a < len(regions) and 0 <= o and o < max_order"
+
+
+class convert_to_dot_bracket_model(convert_to_dot_bracket):
+    """C02 (second contract on the same function): the MILP model handed to the solver IS the model of the property -
+    ghost asserts model-1 .. model-6 - and, with T-solver, the level assignment read back is proper; the result is the
+    painting of the stems with that assignment.  (Optimality itself: see props/C02.py - not decided here.)"""
+    ghost_returns = {**convert_to_dot_bracket.ghost_returns, "R": "list[tuple[int,int,int]]", "O": "list[int]", "G": "list[int]",
+                     "MILP": "bool", "PLAIN": "bool"}
+    ghost_entry = convert_to_dot_bracket.ghost_entry + [
+        "let MILP = False", "let PLAIN = False", "let __make_dot_bracket_G = fill(0, 0)",
+        "let R = empty('list[tuple[int,int,int]]')", "let O = fill(0, 0)"]
+    ghost_exit = ["let G = __make_dot_bracket_G"]
+    ensures = convert_to_dot_bracket.ensures + [
+        # "crossing stems never share a bracket level": the result is the painting (OPEN/CLOSE[O[a]] on the strands of stem a,
+        # dots elsewhere; G: inverse strand map) of the stems R of the structure with a proper level assignment O
+        "implies(MILP or PLAIN, regions_match(self.entries, R) and proper(R, O) and region_map(G, R, len(self.entries), len(R)) "
+        "and painted_g(result.structure, R, O, G))",
+        # "a pseudoknot-free structure uses only round brackets": the MILP is only set up when two stems cross, and without
+        # crossing stems every stem sits on level 0
+        "implies(PLAIN, forall(lambda a: implies(0 <= a and a < len(R), O[a] == 0)))",
+        "implies(MILP, exists(lambda a, b: 0 <= a and a < len(R) and 0 <= b and b < len(R) and cross(R, a, b)))",
+    ]
+    ensures_labels = {**convert_to_dot_bracket.ensures_labels, 5: "proper-level-assignment-painted", 6: "no-crossing-all-level-0",
+                      7: "milp-only-when-knotted"}
+    loops = _with(convert_to_dot_bracket.loops, {
+        1: ["cols_full(vars_by_order, var_by_region_order, i, 0, max_order)"],
+        2: ["cols_full(vars_by_order, var_by_region_order, i, j, max_order)"],
+        3: ["len(terms) >= 0", _TF.format(c="c3", d="0"), _TB.format(c="c3", d="0")],
+        4: ["len(terms) >= 0", _TF.format(c="c3", d="c4"), _TB.format(c="c3", d="c4")],
+        5: [_OM], 6: [_OM, _AM], 7: [_OM, _AM], 8: [_OM, _AM],
+    })
+    ghost = [
+        # (runs before the base contract's level-bound block, which drops the defining facts of max / map / len)
+        {"when": "after", "at": "max_order = max(", "label": "model-2-level-bound",
+         "do": ["mark M2",
+                "forall a, b | let CAB = 0 <= a and a < b and b < len(regions) and cross(regions, a, b) "
+                "| assert implies(CAB, 0 <= combinations_pos[(a, b)] and combinations_pos[(a, b)] < c0) "
+                "| assert implies(CAB, a in graph and b in graph[a]) | assert implies(CAB, b in graph and a in graph[b]) "
+                "| assert implies(CAB, a in graph and b in graph[a] and b in graph and a in graph[b])",
+                "forall a, b | assert implies(0 <= a and a < len(regions) and 0 <= b and b < len(regions) and cross(regions, a, b), a in graph and b in graph[a])",
+                "assert graph_exact(graph, regions)",
+                "forall a | assert implies(a in graph, 0 <= GPOS[a] and GPOS[a] < len(list(graph.keys())) and list(graph.keys())[GPOS[a]] == a)",
+                "forall a | assert implies(a in graph, card(graph[a]) + 1 <= max_order)",
+                "assert exists(lambda p: 0 <= p and p < len(list(graph.keys())) and list(graph.keys())[p] in graph "
+                "and card(graph[list(graph.keys())[p]]) + 1 == max_order)",
+                "assert degree_bound(graph, regions, max_order)",
+                "summarize M2 as 1 <= max_order"]},   # (the clause is recorded as an obligation; its lambda terms are not kept)
+    ] + convert_to_dot_bracket.ghost + [
+        {"when": "after", "at": "max_order = max(", "label": "model-1-conflict-graph", "do": ["assert graph_exact(graph, regions)"]},
+        {"when": "before", "at": "terms = []", "label": "model-3-variables",
+         "do": ["assert " + _VF.format(i="len(regions)", j="0") + " and " + _VB.format(i="len(regions)", j="0") + " and " + _VN,
+                "let TPOS = empty('dict[tuple[int,int],int]')"]},
+        {"when": "after", "at": "length = region_by_var[var][2]", "label": "term-position",
+         "do": ["assert order == c3 and var is var_by_region_order[(c4, c3)] and GI[ident(var)] == c4 and GJ[ident(var)] == c3",
+                "let TPOS = dstore(TPOS, (c4, c3), len(terms))"]},
+        {"when": "after", "at": "problem += pulp.lpSum(terms)", "label": "model-4-objective", "do": ["assert " + _OM]},
+        {"when": "before", "at": "for i in graph.keys()", "label": "edge-of-constraint",
+         "do": ["let EA = fill(0, 0)", "let EB = fill(0, 0)", "let EO = fill(0, 0)"]},
+        {"when": "before", "at": "problem += var_by_region_order", "label": "edge-of-constraint",
+         "do": ["let EA = upd(EA, len(P0.cons), i)", "let EB = upd(EB, len(P0.cons), j)", "let EO = upd(EO, len(P0.cons), order)"]},
+        {"when": "before", "at": "try:", "label": "model-5-constraints",
+         "do": ["forall a | assert implies(a in G0, 0 <= GPOS[a] and GPOS[a] < len(list(G0.keys())) and list(G0.keys())[GPOS[a]] == a)",
+                "assert adj_complete(G0, ADJ, max_order)",
+                "assert region_cons(P0, var_by_region_order, len(regions), max_order) and " + _AM +
+                " and adj_recorded(P0, var_by_region_order, ADJ) and " + _OM]},
+        {"when": "before", "at": "return self.__make_dot_bracket(regions, [0 for", "label": "plain-exit",
+         "do": ["let PLAIN = True", "let R = regions", "let O = fill(len(regions), 0)"]},
+        {"when": "before", "at": "return self.__make_dot_bracket(regions, orders)", "label": "model-6-read-back",
+         "do": ["forall a | let INA = 0 <= a and a < len(regions) "
+                "| assert implies(INA, esum_witness_pre(P0, a, max_order) and esum(a, max_order) == 1) "
+                "| use esum_atmost(P0, a, max_order) "
+                "| assert implies(INA, forall(lambda q, w: implies(0 <= q and q < w and w < max_order, "
+                "not (P0.cons[a].expr.items[q].varValue == 1 and P0.cons[a].expr.items[w].varValue == 1)))) "
+                "| assert implies(INA, forall(lambda q: implies(0 <= q and q < max_order, "
+                "var_by_region_order[(a, q)] is P0.cons[a].expr.items[q]), pats=['ident(var_by_region_order[(a, q)])'])) "
+                "| assert implies(INA, forall(lambda q, w: implies(0 <= q and q < w and w < max_order, "
+                "not (var_by_region_order[(a, q)].varValue == 1 and var_by_region_order[(a, w)].varValue == 1))))",
+                "forall a, o | assert implies(" + _IN + ", (var_by_region_order[(a, o)].varValue == 1) == (o == orders[a]))",
+                "let KA = list(G0.keys())[0]",
+                "assert KA in G0 and GW[KA] in G0[KA] and 0 <= KA and KA < len(regions) and 0 <= GW[KA] and GW[KA] < len(regions) and cross(regions, KA, GW[KA])",
+                "let MILP = True", "let R = regions", "let O = orders"]},
     ]
 
 
@@ -750,8 +963,19 @@ class dot_bracket:
                   "let STATUS = convert_to_dot_bracket_STATUS", "let VIA_FCFS = convert_to_dot_bracket_VIA_FCFS"]
 
 
+class dot_bracket_model(dot_bracket):
+    """C02 at the observation point BpSeq.dot_bracket: the clauses of convert_to_dot_bracket@model, handed through"""
+    callee_variants = {"BpSeq.convert_to_dot_bracket": "model"}
+    ghost_returns = {**dot_bracket.ghost_returns, "R": "list[tuple[int,int,int]]", "O": "list[int]", "G": "list[int]", "MILP": "bool", "PLAIN": "bool"}
+    ghost_exit = dot_bracket.ghost_exit + ["let %s = convert_to_dot_bracket_%s" % (g, g) for g in ("R", "O", "G", "MILP", "PLAIN")]
+    ensures = dot_bracket.ensures + convert_to_dot_bracket_model.ensures[5:]
+    ensures_labels = {**dot_bracket.ensures_labels, 5: "proper-level-assignment-painted", 6: "no-crossing-all-level-0", 7: "milp-only-when-knotted"}
+
+
 CONTRACTS = dict(common_c.CONTRACTS)
 CONTRACTS.update({
     "BpSeq.convert_to_dot_bracket": convert_to_dot_bracket,
+    "BpSeq.convert_to_dot_bracket@model": convert_to_dot_bracket_model,
     "BpSeq.dot_bracket": dot_bracket,
+    "BpSeq.dot_bracket@model": dot_bracket_model,
 })
